@@ -611,7 +611,7 @@ func C16() int {
 	for _, c := range c09Cases(r.Thorough()) { // multi-file programs: unused-function removal must not leave calls without a routine
 		files := map[string]string{}
 		for _, l := range c.libs {
-			files[fmt.Sprintf("l%d.tsh", l.id)] = withNonce(PrintProg(*c09LibProg(l)), c.nonce[l.id])
+			files[fmt.Sprintf("l%d.tsh", l.id)] = c09LibSource(c, l, c09LibProg(l))
 		}
 		if c.localStd {
 			files["strings.tsh"] = "func Contains(s string, sub string) string {\n\treturn \"mine:\" + sub\n}\n"
@@ -660,7 +660,13 @@ func C16() int {
 		}
 		fail := func(rule, detail string, script string) {
 			if it.twice && strings.HasPrefix(rule, "batch: label defined twice") {
-				rule = "batch: label defined twice (routine of a file that the import graph reaches twice)"
+				if pub := c16PublicLabelTwice(script); pub != "" {
+					// public routines are de-duplicated even for a file reached twice: not the listed finding
+					rule = "batch: label of a PUBLIC routine defined twice"
+					detail += "; " + pub
+				} else {
+					rule = "batch: label defined twice (routine of a file that the import graph reaches twice)"
+				}
 			}
 			r.Fail("rule="+rule, fmt.Sprintf("%s: %s (%s)", it.name, rule, detail), func() findings.Replay {
 				return findings.Replay{Files: map[string]string{"src/main.tsh": it.src, "script.txt": script, "detail.txt": it.name + "\n" + rule + ": " + detail + "\n"}, Script: transpileOnlyReplay() + "\n# then: bash -n on the emitted .sh / structural reading of the emitted .bat (vcheck batstruct <file>)"}
@@ -738,4 +744,18 @@ func init() {
 		fmt.Println("structure ok")
 		return 0
 	}
+}
+
+var c16PubLabel = regexp.MustCompile(`(?m)^:(_[0-9a-f]{7}_[A-Z][A-Za-z0-9_]*)\s*$`)
+
+// c16PublicLabelTwice names a label of an imported PUBLIC function (prefix + upper-case name) that occurs twice.
+func c16PublicLabelTwice(script string) string {
+	n := map[string]int{}
+	for _, m := range c16PubLabel.FindAllStringSubmatch(strings.ReplaceAll(script, "\r", ""), -1) {
+		n[m[1]]++
+		if n[m[1]] > 1 {
+			return m[1]
+		}
+	}
+	return ""
 }
